@@ -7,6 +7,7 @@ import Kopf.Lemmas.C18_Spec
 import Kopf.Lemmas.C18_Misc
 import Kopf.Lemmas.C18_Fns
 import Kopf.Lemmas.C18_Select
+import Kopf.Lemmas.C18_Outcomes
 namespace Kopf.C18
 open Kopf Kopf.J
 
@@ -274,15 +275,18 @@ theorem fidelity_fns (b r m : J) (hb : b.isObj = true) (p : List (String × J)) 
     yields the object with the requested field changes and transformations applied, up to the
     presence of empty mappings" — for the whole review (`serve`), with the third-party diff library
     as an explicit hypothesis instead of a trusted-base note:
-      `contract` : applying `from_diff a b` to `a` gives `b` (jsonpatch's documented contract; the
-                   open findings C18-F4 / C18-F5 are inputs on which jsonpatch 1.33 breaks it);
+      `contract` : POINTWISE — applying the produced `from_diff body body_to_be` to `body` gives
+                   `body_to_be`, for THIS review only (so the theorem is instantiable with jsonpatch on
+                   every input where the differential run confirms it; the open findings C18-F4 / C18-F5
+                   are the inputs on which jsonpatch 1.33 fails it);
       `nil`      : the empty patch changes nothing.
     Holds whatever the handlers' outcomes are (the patch is attached on denial too). -/
 theorem returned_patch_fidelity {Op : Type} (applyOps : J → List Op → Option J)
     (fromDiff : J → J → List Op)
-    (contract : ∀ a b, applyOps a (fromDiff a b) = some b) (nil : ∀ a, applyOps a [] = some a)
+    (nil : ∀ a, applyOps a [] = some a)
     (hs : List (Handler × Bool)) (c : Cause) (act : Handler → Act)
     (b m : J) (hb : b.isObj = true) (p : List (String × J)) (fns : List Fn) (resp : Response Op)
+    (contract : ∀ toBe, mutated b p fns = .ok toBe → applyOps b (fromDiff b toBe) = some toBe)
     (hserve : serve fromDiff hs c act b p fns = .ok resp)
     (hm : applyFns (mergePatch b (.obj p)) fns = .ok m) :
     ∃ r, appliedObject applyOps b resp = some r ∧ LeafEq r m := by
@@ -313,24 +317,34 @@ theorem returned_patch_fidelity {Op : Type} (applyOps : J → List Op → Option
         have hle := fidelity_fns (.obj kvs) toBe m hb p fns hmu hm
         cases hops : fromDiff (.obj kvs) toBe with
         | nil =>
-          have h1 := contract (.obj kvs) toBe
+          have h1 := contract toBe hmu
           rw [hops, nil] at h1
           cases h1
           exact ⟨.obj kvs, by simp [appliedObject, buildResponse], hle⟩
         | cons o os =>
           refine ⟨toBe, ?_, hle⟩
-          have h1 := contract (.obj kvs) toBe
+          have h1 := contract toBe hmu
           rw [hops] at h1
           simp [appliedObject, buildResponse, h1]
 
-/-- allowed ⇔ no function with a MATCHING registration raised (selection and response combined).
-    `hact`: what an invocation does depends on the function and the id, not on which of the stacked
-    registrations of that function let it in. -/
-theorem serve_allowed_iff {Op : Type} (fromDiff : J → J → List Op) (hs : List (Handler × Bool)) (c : Cause)
-    (act : Handler → Act) (hact : ∀ h h', h.key = h'.key → act h = act h')
-    (b : J) (p : List (String × J)) (fns : List Fn) (resp : Response Op)
+/-- corollary: a diff library that honours its contract everywhere -/
+theorem returned_patch_fidelity_of_contract {Op : Type} (applyOps : J → List Op → Option J)
+    (fromDiff : J → J → List Op)
+    (contract : ∀ a b, applyOps a (fromDiff a b) = some b) (nil : ∀ a, applyOps a [] = some a)
+    (hs : List (Handler × Bool)) (c : Cause) (act : Handler → Act)
+    (b m : J) (hb : b.isObj = true) (p : List (String × J)) (fns : List Fn) (resp : Response Op)
+    (hserve : serve fromDiff hs c act b p fns = .ok resp)
+    (hm : applyFns (mergePatch b (.obj p)) fns = .ok m) :
+    ∃ r, appliedObject applyOps b resp = some r ∧ LeafEq r m :=
+  returned_patch_fidelity applyOps fromDiff nil hs c act b m hb p fns resp (fun _ _ => contract _ _) hserve hm
+
+/-- What the code does, exactly: `outcomes` is keyed by the handler ID, so the review is allowed iff
+    none of the selected handlers THAT ARE THE LAST OF THEIR ID raised. -/
+theorem serve_allowed_exact {Op : Type} (fromDiff : J → J → List Op) (hs : List (Handler × Bool)) (c : Cause)
+    (act : Handler → Act) (b : J) (p : List (String × J)) (fns : List Fn) (resp : Response Op)
     (hserve : serve fromDiff hs c act b p fns = .ok resp) :
-    resp.allowed = true ↔ ∀ h m, (h, m) ∈ hs → gate h c m = true → (act h).error = none := by
+    resp.allowed = true ↔
+      ∀ h, lastOfId (select hs c) h.id = some h → (act h).error = none := by
   unfold serve at hserve
   cases hj : asJsonPatch fromDiff b p fns with
   | error e => simp [hj] at hserve
@@ -339,14 +353,56 @@ theorem serve_allowed_iff {Op : Type} (fromDiff : J → J → List Op) (hs : Lis
     cases hserve
     rw [allowed_iff]
     constructor
-    · intro h1 h m hmem hg
-      obtain ⟨⟨h', hsel, hk, _⟩, _⟩ := stacked_registration_selected hs c h m hmem hg
-      rw [← hact h' h hk]
-      exact h1 _ (List.mem_map.2 ⟨h', hsel, rfl⟩)
+    · intro h1 h hl
+      exact h1 _ ((collect_values act _ _).2 ⟨h, hl, rfl⟩)
     · intro h1 o ho
-      obtain ⟨h, hsel, rfl⟩ := List.mem_map.1 ho
-      obtain ⟨m, hmem, hg⟩ := (select_spec hs c).1 h hsel
-      exact h1 h m hmem hg
+      obtain ⟨h, hl, rfl⟩ := (collect_values act _ _).1 ho
+      exact h1 h hl
+
+/-- Full clause of the property — FALSE of the code (`same_id_denial_lost_witness`, open finding C18-F6):
+      `resp.allowed = true ↔ ∀ h m, (h, m) ∈ hs → gate h c m = true → (act h).error = none`
+    ("allowed iff no selected handler raised").
+    Proved under the guard that the selected handlers carry pairwise different IDs (two DIFFERENT
+    functions registered under one id — e.g. `@kopf.on.validate` and `@kopf.on.mutate` on two functions
+    of one name — are both selected; stacked registrations of ONE function are not: they are
+    deduplicated). `hact`: what an invocation does depends on the function and the id, not on which
+    of the stacked registrations of that function let it in. -/
+theorem serve_allowed_iff_partial {Op : Type} (fromDiff : J → J → List Op) (hs : List (Handler × Bool)) (c : Cause)
+    (act : Handler → Act) (hact : ∀ h h', h.key = h'.key → act h = act h')
+    (hids : ((select hs c).map (·.id)).Nodup)
+    (b : J) (p : List (String × J)) (fns : List Fn) (resp : Response Op)
+    (hserve : serve fromDiff hs c act b p fns = .ok resp) :
+    resp.allowed = true ↔ ∀ h m, (h, m) ∈ hs → gate h c m = true → (act h).error = none := by
+  rw [serve_allowed_exact fromDiff hs c act b p fns resp hserve]
+  constructor
+  · intro h1 h m hmem hg
+    obtain ⟨⟨h', hsel, hk, _⟩, _⟩ := stacked_registration_selected hs c h m hmem hg
+    rw [← hact h' h hk]
+    exact h1 h' (lastOfId_of_nodup _ hids h' hsel)
+  · intro h1 h hl
+    obtain ⟨m, hmem, hg⟩ := (select_spec hs c).1 h (lastOfId_spec _ _ _ hl).1
+    exact h1 h m hmem hg
+
+/-- C18-F6 (open): `@kopf.on.validate … def check: raise AdmissionError(code=422)` followed by
+    `@kopf.on.mutate … def check` — two functions, one id. Both are selected and run; the validating
+    handler raises; the review is answered `allowed: true` (its outcome was overwritten under the key
+    `check`). Replayed on the real code: corpus/C18/C18-F6-same-id-denial-lost.json. -/
+theorem same_id_denial_lost_witness :
+    ∃ (hs : List (Handler × Bool)) (c : Cause) (act : Handler → Act) (resp : Response Nat) (h : Handler),
+      serve (fun _ _ => [1]) hs c act (.obj []) [("spec", .obj [("x", .num 1)])] [] = .ok resp ∧
+      h ∈ select hs c ∧ (act h).error ≠ none ∧ resp.allowed = true ∧ resp.status = none :=
+  ⟨[(⟨"check", .validating, none, none, "f1"⟩, true), (⟨"check", .mutating, none, none, "f2"⟩, true)],
+   ⟨none, some "check", some "CREATE", none⟩,
+   fun h => if h.fn == "f1" then ⟨[], some ⟨.admission, some 422, "spec is wrong", "r"⟩⟩ else ⟨[], none⟩,
+   _, ⟨"check", .validating, none, none, "f1"⟩, rfl, by decide, by simp, rfl, rfl⟩
+
+/-- …and it is order-dependent: registered the other way round the same review is denied. -/
+example : ∃ resp : Response Nat,
+    serve (fun _ _ => [1])
+      [(⟨"check", .mutating, none, none, "f2"⟩, true), (⟨"check", .validating, none, none, "f1"⟩, true)]
+      ⟨none, some "check", some "CREATE", none⟩
+      (fun h => if h.fn == "f1" then ⟨[], some ⟨.admission, some 422, "spec is wrong", "r"⟩⟩ else ⟨[], none⟩)
+      (.obj []) [("spec", .obj [("x", .num 1)])] [] = .ok resp ∧ resp.allowed = false := ⟨_, rfl, rfl⟩
 
 /-- the warnings of the response are those the selected handlers issued, handler by handler in
     registry (= execution) order, each handler's own in the order it issued them -/
@@ -412,10 +468,10 @@ example : ∃ r, appliedObject (fun a ops => some (ops.getLastD a))
       (buildResponse [some ⟨.admission, some 403, "no", "A('no')"⟩] [] [J.obj [("spec", .obj [("a", .num 2)])]])
       = some r ∧ LeafEq r (.obj [("spec", .obj [("a", .num 2)])]) :=
   returned_patch_fidelity (Op := J) (fun a ops => some (ops.getLastD a)) (fun _ b => [b])
-    (fun _ _ => rfl) (fun _ => rfl)
+    (fun _ => rfl)
     [(⟨"m", .mutating, none, none, "f"⟩, true), (⟨"v", .validating, some ["CREATE"], none, "f"⟩, false)]
     ⟨none, none, some "UPDATE", none⟩ (fun _ => ⟨[], some ⟨.admission, some 403, "no", "A('no')"⟩⟩)
-    _ _ rfl [("spec", .obj [("a", .num 2)])] [] _ rfl rfl
+    _ _ rfl [("spec", .obj [("a", .num 2)])] [] _ (fun _ _ => rfl) rfl rfl
 
 -- the former C18-F3 witness is now rejected by the gate; a matching operation, `*`, no declared
 -- operations and an absent operation pass:
